@@ -392,20 +392,104 @@ def routes_of(world, sol):
     return key, sol.get(key)
 
 
+def _greedy_peeling(edges):
+    """Reference max-bottleneck peeling of a DAG flow (edges: [[u, v, f]]): list of paths.  Independent of flowpaths."""
+    flow = {(u, v): f for u, v, f in edges if f}
+    nodes = []
+    for u, v, _ in edges:
+        for x in (u, v):
+            if x not in nodes:
+                nodes.append(x)
+    succ = {x: [] for x in nodes}
+    indeg = {x: 0 for x in nodes}
+    for u, v, _ in edges:
+        succ[u].append(v)
+        indeg[v] += 1
+    topo, q, deg = [], [x for x in nodes if indeg[x] == 0], dict(indeg)
+    while q:
+        x = q.pop(0)
+        topo.append(x)
+        for y in succ[x]:
+            deg[y] -= 1
+            if deg[y] == 0:
+                q.append(y)
+    sources = [x for x in nodes if indeg[x] == 0]
+    sinks = [x for x in nodes if not succ[x]]
+    paths = []
+    for _ in range(4 * len(edges) + 4):
+        best, prev = {x: (float("inf") if x in sources else float("-inf")) for x in nodes}, {}
+        for x in topo:
+            for y in succ[x]:
+                b = min(best[x], flow.get((x, y), 0))
+                if b > best[y]:
+                    best[y], prev[y] = b, x
+        t = max(sinks, key=lambda x: best[x]) if sinks else None
+        if t is None or best[t] <= 1e-12 or best[t] == float("inf"):
+            break
+        path = [t]
+        while path[-1] in prev and path[-1] not in sources:
+            path.append(prev[path[-1]])
+        path.reverse()
+        for e in zip(path[:-1], path[1:]):
+            flow[e] = flow.get(e, 0) - best[t]
+        paths.append(path)
+    return paths
+
+
 def greedy_variant(world, rng):
     """The greedy route of the DAG flow decompositions, reached on purpose: default options (greedy on), nothing ignored,
     more paths allowed than the instance needs (the answer is then padded), and decimal float weights (0.1-steps: flow
     values whose sums and differences are not exact in binary).  Returns None where it does not apply."""
     g = world["graph"]
-    if world["class"] not in ("kFlowDecomp", "MinFlowDecomp") or _node_mode(world) or not g.get("routes") or not g.get("weights"):
+    if world["class"] not in ("kFlowDecomp", "MinFlowDecomp") or _node_mode(world):
         return None
     w2 = copy.deepcopy(world)
     a = w2["args"]
     a["optimization_options"] = {}
     a.pop("elements_to_ignore", None)
     a.pop("solution_weights_superset", None)
+    if not g.get("routes") or not g.get("weights"):
+        # no generating routes (bow-tie graphs): any two consecutive edges that the greedy paths do not take one after
+        # the other; with enough paths allowed some decomposition routes a little flow through both
+        gp = _greedy_peeling(g["edges"])
+        greedy_pairs = set()
+        for p_ in gp:
+            ep = list(zip(p_[:-1], p_[1:]))
+            greedy_pairs.update(zip(ep[:-1], ep[1:]))
+        E_ = [(u, v) for u, v, f in g["edges"] if f]
+        cands = [(e1, e2) for e1 in E_ for e2 in E_ if e1[1] == e2[0] and (e1, e2) not in greedy_pairs]
+        if not cands or not gp:
+            return None
+        e1, e2 = rng.choice(cands)
+        a["subpath_constraints"] = [[list(e1), list(e2)]]
+        for k_ in ("subpath_constraints_coverage", "subpath_constraints_coverage_length", "length_attr"):
+            a.pop(k_, None)
+        if "k" in a:
+            a["k"] = min(len(gp) + rng.choice([1, 2]), 6)
+        return w2
     if "k" in a:
         a["k"] = len(g["routes"]) + rng.choice([1, 1, 2])
+    if rng.random() < 0.5:
+        # a constraint that the generating routes satisfy but the greedy (max-bottleneck) paths do not: the shortcut has
+        # to be abandoned although it found few enough paths
+        gp = _greedy_peeling(g["edges"])
+        greedy_pairs = set()
+        for p_ in gp:
+            ep = list(zip(p_[:-1], p_[1:]))
+            greedy_pairs.update(zip(ep[:-1], ep[1:]))
+        cands = []
+        for r in g["routes"]:
+            er = list(zip(r[:-1], r[1:]))
+            cands += [(e1, e2) for e1, e2 in zip(er[:-1], er[1:]) if (e1, e2) not in greedy_pairs]
+        if cands:
+            e1, e2 = rng.choice(cands)
+            a["subpath_constraints"] = [[list(e1), list(e2)]]
+            for k_ in ("subpath_constraints_coverage", "subpath_constraints_coverage_length", "length_attr"):
+                a.pop(k_, None)
+            a["k"] = len(g["routes"]) + rng.choice([0, 1, 1, 2]) if "k" in a else a.get("k")
+            if a.get("k") is None:
+                a.pop("k", None)
+            return w2
     if rng.random() < 0.7:
         ws = [round(0.1 * rng.randint(1, 30), 1) for _ in g["weights"]]
         flow = {}
